@@ -207,7 +207,7 @@ def load_known():
 
 
 def slug(s):
-    return re.sub(r"[^A-Za-z0-9_.-]+", "_", s)[:150]
+    return re.sub(r"[^A-Za-z0-9_.-]+", "_", s)[:120] + "-" + hashlib.sha1(s.encode()).hexdigest()[:8]
 
 
 def finish(prop, tier, results, t0, level_text, trusted, seed=0):
